@@ -3,8 +3,9 @@
 (* The primitive value types of coba/primitives.py (X14).                  *)
 (*                                                                         *)
 (* One object machine: a constructor action creates ONE object of the      *)
-(* subject, then up to Budget(sec) public calls are made on it; `hist` holds *)
-(* every step with the observation the implementation must give.  Actions  *)
+(* subject, then up to Budget(sec) public calls are made on it; `hist`     *)
+(* holds every step with the observation the implementation must give.     *)
+(* Actions                                                                 *)
 (* that copy the object (pickle, coba.json, deepcopy, pickle into ANOTHER  *)
 (* process) replace `obj` by what the copy must be.  The driver replays    *)
 (* every enumerated behaviour on the real classes and compares the         *)
@@ -14,14 +15,18 @@
 (*                                                                         *)
 (* sec (chosen in Init from the constant Sections) = which part of the     *)
 (* subject a behaviour explores:                                           *)
-(*  "rewards" / "rhist"  L1Reward, BinaryReward, HammingReward,            *)
-(*        DiscreteReward (542-717).  The abstract value of a reward        *)
+(*  "rewards" / "rewards2" / "rhist"  L1Reward, BinaryReward,              *)
+(*        HammingReward, DiscreteReward (542-717) over a big universe      *)
+(*        with one call / the quick universe with two calls / a small      *)
+(*        universe with single calls in the history.  The abstract value   *)
+(*        of a reward                                                      *)
 (*        function is a function action -> number over the alphabet Acts   *)
 (*        (ints, floats equal to ints, strings, Categoricals with two      *)
 (*        level orders, tuples, one-hot tuples, sparse actions made        *)
 (*        hashable, a plain dict); Call defines it.                        *)
-(*  "pairs"   r1 == r2 for every pair of a universe of reward functions.   *)
-(*  "values"  Categorical (316-333), HashableDense (383-394),              *)
+(*  "pairs"   r1 == r2 for every ordered pair of a universe of reward      *)
+(*        functions.                                                       *)
+(*  "values" / "values4"  Categorical (316-333), HashableDense (383-394),  *)
 (*        HashableSparse (456-490): ==, hash, dict look-up, attributes,    *)
 (*        copies, and pickling into a process whose str hashes are salted  *)
 (*        differently (every spawned worker).                              *)
@@ -68,7 +73,7 @@ CONSTANTS Sections,  \* the parts of the subject to enumerate
 VARIABLES sec,     \* the part of the subject this behaviour explores
           obj,     \* the abstract object under test (NoObj before the constructor ran)
           env,     \* values: [proc = the process the object lives in, cached = the process its hash was cached in or -1]
-          hist,    \* steps so far: [op, arg, obs]
+          hist,    \* steps so far: [op, arg, obs]; a copying step's obs is [res, now = the abstract object the copy must be]
           dead     \* a step raised: the behaviour is over
 vars == <<sec, obj, env, hist, dead>>
 
@@ -293,7 +298,7 @@ Step(op, arg, obs) == [op |-> op, arg |-> arg, obs |-> obs]
    "rhist" = the small universe with single calls in the history *)
 Budget(s) == MaxOps + (IF Size = "quick"
                        THEN CASE s \in {"rewards", "inter", "batch"} -> 1 [] s = "values" -> 3 [] OTHER -> 2
-                       ELSE CASE s = "rewards" -> 1 [] s \in {"rewards2", "inter", "batch"} -> 2 [] s = "values" -> 4 [] OTHER -> 3)
+                       ELSE CASE s = "rewards" -> 1 [] s \in {"rewards2", "inter", "batch"} -> 2 [] s = "values4" -> 4 [] OTHER -> 3)
 Terminal == dead \/ Len(hist) = Budget(sec) + 1
 (* one initial state per section; the first reward function of a pair is chosen here so that the workers share the pairs *)
 Init == /\ sec \in Sections /\ env = [proc |-> 0, cached |-> -1] /\ hist = <<>> /\ dead = FALSE
@@ -322,13 +327,13 @@ PropsOf    == Room /\ RSec /\ IsReward /\ obj.c = "DR"                          
 Pickle ==                                                    \* pickle.loads(pickle.dumps(r))
   /\ Room /\ RSec /\ IsReward
   /\ LET ok == Variant # "literal_all" \/ obj.c = "L1" \/ AllLit(obj) IN
-       /\ hist' = Append(hist, Step("pickle", Form(obj), IF ok THEN "ok" ELSE "raise"))
+       /\ hist' = Append(hist, Step("pickle", Form(obj), [res |-> IF ok THEN "ok" ELSE "raise", now |-> IF ok THEN PickleNorm(obj) ELSE obj]))
        /\ obj' = (IF ok THEN PickleNorm(obj) ELSE obj) /\ dead' = ~ok
   /\ UNCHANGED <<sec, env>>
 Json ==                                                      \* coba.json.loads(coba.json.dumps(r))
   /\ Room /\ RSec /\ IsReward /\ JsonOK(obj)
-  /\ hist' = Append(hist, Step("json", Form(obj), "ok")) /\ obj' = JsonNorm(obj) /\ UNCHANGED <<sec, env, dead>>
-DeepCopy == Room /\ RSec /\ IsReward /\ hist' = Append(hist, Step("deepcopy", 0, "ok")) /\ obj' = PickleNorm(obj) /\ UNCHANGED <<sec, env, dead>>
+  /\ hist' = Append(hist, Step("json", Form(obj), [res |-> "ok", now |-> JsonNorm(obj)])) /\ obj' = JsonNorm(obj) /\ UNCHANGED <<sec, env, dead>>
+DeepCopy == Room /\ RSec /\ IsReward /\ hist' = Append(hist, Step("deepcopy", 0, [res |-> "ok", now |-> PickleNorm(obj)])) /\ obj' = PickleNorm(obj) /\ UNCHANGED <<sec, env, dead>>
 PlainPeers(r) == CASE r.c = "BR" -> {r.am, I(7)}
                    [] r.c = "DR" -> {[t |-> r.ct, v |-> r.rews], L(<<I(7)>>), I(4)}
                    [] OTHER      -> {I(1)}
@@ -344,6 +349,8 @@ ValU == {S("a"), CatA, CatA2, CatB, OH10, T(<<S("a"), S("b")>>), T(<<CatA, I(1)>
          MX, MXf, MXY, MYX, M(<<<<"x", S("a")>>>>), M(<<>>)}
         \cup (IF Quick THEN {} ELSE {Ct("b", BA), T12, M(<<<<"z", CatA>>>>)})
         \cup {HD(<<I(1), I(2)>>, 5), HD(<<I(1), I(2)>>, 0), HD(<<S("a")>>, -7)}
+(* "values4": one call more on the values whose hash is cached and depends on the process *)
+ValU4 == {CatA, T(<<S("a"), S("b")>>), T(<<CatA, I(1)>>), OH10, MXY, M(<<<<"x", S("a")>>>>)}
 BadCatU == {Ct("c", AB), Ct("a", <<>>), Ct("A", AB)}               \* 324: a value that is not one of the levels
 Caches(x) == x.t \in {"tup", "map"}                               \* 391-394, 470-475
 ValPeers(x) == IF x.t = "hd" THEN {T(x.v)} ELSE
@@ -365,7 +372,7 @@ Attrs(x) ==
 HashTok(x, e) == IF x.t = "hd" THEN [c |-> "explicit", p |-> x.h]
                  ELSE [c |-> Canon(x), p |-> IF Variant = "stale_hash" /\ Caches(x) /\ e.cached # -1 THEN e.cached ELSE e.proc]
 Cache(x, e) == IF Caches(x) /\ e.cached = -1 THEN [e EXCEPT !.cached = e.proc] ELSE e
-VSec == sec = "values"
+VSec == sec \in {"values", "values4"}
 NewValue(x) == /\ Fresh /\ VSec
                /\ (IF x.t = "cat" /\ \A i \in DOMAIN x.lv : x.lv[i] # x.v
                    THEN hist' = <<Step("new", x, "ValueError")>> /\ dead' = TRUE /\ obj' = obj
@@ -494,7 +501,7 @@ BatchArgs     == IF TSec /\ hist # <<>> THEN [1..2 -> BatchActs] \cup [1..1 -> B
 (* the constructor arguments (empty once an object exists and outside their section: TLC does not enumerate them in vain) *)
 NewRewards == IF Fresh /\ RSec THEN (CASE sec = "rhist" -> HistU [] sec = "rewards2" -> RewardUQ [] OTHER -> RewardU) ELSE {}
 NewPairs   == IF Fresh /\ sec = "pairs" THEN PairU ELSE {}
-NewValues  == IF Fresh /\ VSec THEN ValU \cup BadCatU ELSE {}
+NewValues  == IF Fresh /\ VSec THEN (IF sec = "values4" THEN ValU4 ELSE ValU \cup BadCatU) ELSE {}
 NewRows    == IF Fresh /\ RSecW THEN RowU ELSE {}
 NewInters  == IF Fresh /\ ISec THEN InterU \cup MissingU ELSE {}
 NewBases   == IF Fresh /\ BSec THEN BaseU ELSE {}
@@ -554,7 +561,7 @@ HammingOnSets == (RewardState /\ obj.c = "HR" /\ NoDups(obj.am)) =>
 (* copies are the same function: the call table never changes, whatever was done to the object before *)
 CallsPreserved == (RewardState /\ ~dead) => LET r0 == Init0  cs == CallSeq(r0) IN \A i \in DOMAIN cs : SameRes(Call(r0, cs[i]), Call(obj, cs[i]))
 EqPreserved == (RewardState /\ ~dead /\ \A i \in DOMAIN hist : hist[i].op # "json") => EqR(Init0, obj) # "F"
-PickleTotal == RSec => \A i \in DOMAIN hist : hist[i].op = "pickle" => hist[i].obs = "ok"
+PickleTotal == RSec => \A i \in DOMAIN hist : hist[i].op = "pickle" => hist[i].obs.res = "ok"
 (* == between reward functions is an equivalence and equal functions are the same function *)
 PairState == sec = "pairs" /\ hist # <<>>
 P1 == hist[1].arg[1]
@@ -577,7 +584,7 @@ InterKeys == InterState => LET m == Mapping(obj) IN
                /\ Len(m) - Len(obj.kw) \in {Len(obj.args), Len(obj.args) - 1}
                /\ (Len(m) - Len(obj.kw) = Len(obj.args) - 1) => (obj.c = "log" /\ obj.args[4][2].t \in {"omitted", "none"})
 
-Emit == Terminal => PrintT(ToJson(
-   [sec |-> sec, steps |-> hist,
-    table |-> IF RSec /\ ~(hist[1].obs = "CobaException") THEN Table(hist[1].arg) ELSE <<>>]))
+(* a behaviour is printed when it is complete; the call table of a reward function once, where it is constructed *)
+Emit == /\ Terminal => PrintT(ToJson([sec |-> sec, steps |-> hist]))
+        /\ (RSec /\ Len(hist) = 1 /\ ~dead) => PrintT(ToJson([sec |-> sec, reward |-> hist[1].arg, table |-> Table(hist[1].arg)]))
 =============================================================================
